@@ -254,6 +254,29 @@ def _known(env: Env, tok) -> Optional[bool]:
     return None if v is None else v ^ neg
 
 
+def nonnull_expr(cfg: CFG, v: ast.AST) -> bool:
+    """Is the value of *v* never None, whatever its free names hold?  (calls known to return objects, displays,
+    `x or make()`, `make() if x is None else x`)"""
+    from .model import NON_NONE_CALLS
+    if isinstance(v, ast.Call):
+        return cfg.res.path(v.func) in NON_NONE_CALLS
+    if isinstance(v, (ast.Tuple, ast.List, ast.Dict, ast.Set, ast.JoinedStr, ast.Lambda, ast.ListComp, ast.DictComp, ast.SetComp)):
+        return True
+    if isinstance(v, ast.Constant):
+        return v.value is not None
+    if isinstance(v, ast.BoolOp) and isinstance(v.op, ast.Or):
+        return nonnull_expr(cfg, v.values[-1])      # earlier operands are returned only when truthy, i.e. not None
+    if isinstance(v, ast.IfExp):
+        nt_ = _none_test(v.test)
+        if nt_ is not None:
+            keep = v.body if not nt_[1] else v.orelse
+            other = v.orelse if not nt_[1] else v.body
+            if isinstance(keep, ast.Name) and keep.id == nt_[0] and nonnull_expr(cfg, other):
+                return True
+        return nonnull_expr(cfg, v.body) and nonnull_expr(cfg, v.orelse)
+    return False
+
+
 def _value_token(cfg: CFG, env: Env, node: Node, v: Optional[ast.AST], flags: Set[str], nulls: Set[str]):
     """Token of the value expression *v* stored at *node*."""
     fresh = ('v', node.id)
@@ -285,7 +308,11 @@ def _value_token(cfg: CFG, env: Env, node: Node, v: Optional[ast.AST], flags: Se
         return ('n', fresh)
     if isinstance(v, (ast.BoolOp, ast.IfExp)):
         k = _eval_bool(cfg, env, v, flags, nulls)
-        return ('c', k) if k is not None else fresh
+        if k is not None:
+            return ('c', k)
+        if nonnull_expr(cfg, v):
+            return ('obj', node.id, None)
+        return fresh
     nt = _none_test(v)
     if nt and nt[0] in nulls:
         t = _tok_of(cfg, env, nt[0])
@@ -595,6 +622,35 @@ def envs_at(cfg: CFG, node: Node, limit: int = 64) -> List[Env]:
                 seen.add(st)
                 dq.append(st)
     return out or [()]
+
+
+def nonnull_at(cfg: CFG, node: Node, name: str) -> bool:
+    """Is local / parameter *name* known not to be None on every path reaching *node*?"""
+    envs = envs_at(cfg, node)
+    if not envs:
+        return False
+    if name not in nullable_vars(cfg) and name not in flag_vars(cfg):
+        # never tested: decided by what it can have been assigned
+        from .dataflow import rdefs
+        from .model import NON_NONE_CALLS
+        ds = rdefs(cfg).reaching(node, name)
+        if not ds:
+            return False
+        for d in ds:
+            if d is None:
+                return False
+            v = d.meta.get('value')
+            ok = v is not None and nonnull_expr(cfg, v)
+            if not ok:
+                return False
+        return True
+    for env in envs:
+        tok = _tok_of(cfg, env, name)
+        if tok is None:
+            return False
+        if _known(env, ('isnone', tok)) is not False:
+            return False
+    return True
 
 
 def reach(cfg: CFG, sources: Iterable[Node], avoid: Optional[Iterable[Node]] = None,
